@@ -1404,5 +1404,15 @@ class PPrintStrEngine(PPrintModelEngine):
     return ['--seeds', str(case['seed']), '--n', str(case['n'])]
 
 
+class ConfigTextStrEngine(ConfigTextEngine):
+  """coq/Model/ConfigTextStr.v (`config_text_s`: the config_str text with values formatted by `pformat_s`, i.e. including
+  pprint's string splitting) against gin.config_str() of /repo, character for character, on stores with long strings."""
+  name = 'config-text-str'
+  script = 'config_text_str_corr.py'
+
+  def corpus(self):
+    return [{'seed': 0, 'n': 80}]
+
+
 ENGINES = [SerialEngine(), ValueTextEngine(), DynStrEngine(), CornerEngine(), AtomModelEngine(), PPrintModelEngine(), ConfigTextEngine(),
-           PPrintStrEngine()]
+           PPrintStrEngine(), ConfigTextStrEngine()]
